@@ -56,6 +56,7 @@ type env struct {
 	lossOK  bool
 	log     *vconn.Log
 	logPos  int
+	ro      bool // the mailbox is currently selected read-only (EXAMINE)
 }
 
 func (e *env) class() string { return e.cfg.name + "/enabled=" + e.enabled }
@@ -636,6 +637,7 @@ func (e *env) oneOp() {
 			}
 			return ""
 		})
+		e.ro = ro
 	case 9, 10, 11: // SEARCH
 		crit := e.randCriteria(2)
 		uid := rng.Intn(2) == 0
@@ -763,14 +765,23 @@ func (e *env) oneOp() {
 		} else {
 			base := e.srv.B.NCalls()
 			e.do("CLOSE", "Unselect", false, func() error { return c.UnselectAndExpunge().Wait() }, func(*kit.Call) string {
+				expunged := false
 				for _, k := range e.srv.B.CallsSince(base) {
 					if k.ConnID == e.sessID && k.Method == "Expunge" && k.UIDs == nil {
-						return ""
+						expunged = true
 					}
 				}
-				return "CLOSE did not expunge"
+				// CLOSE removes the deleted messages only if the mailbox was selected read-write
+				switch {
+				case !e.ro && !expunged:
+					return "CLOSE did not expunge"
+				case e.ro && expunged:
+					return "CLOSE expunged a mailbox selected with EXAMINE"
+				}
+				return ""
 			})
 		}
+		e.ro = false
 		e.do("SELECT (re-select)", "Select", false, func() error { _, err := c.Select("INBOX", nil).Wait(); return err }, func(*kit.Call) string { return "" })
 	}
 }
@@ -1038,6 +1049,7 @@ func runSession(w *hx.W, rng *rand.Rand, cfg srvCfg, enabled string, uni []sr.Ms
 		}
 		if c.State() != imap.ConnStateSelected {
 			c.Select("INBOX", nil).Wait()
+			e.ro = false
 		}
 	}
 	if p := srv.Log.Panics(); len(p) > 0 {
